@@ -28,6 +28,9 @@ CHECKS = {
     "C12": ("2 (C12)", "One arbitrary tick of the real heartbeat_timer_task with symbolic period, clock, silence and outstanding-TestRequest age "
                   "(lemmas with a two-tick tolerance), inbound TestRequest / Heartbeat handling with symbolic ids, and whole virtual-time "
                   "scenarios (dead / responsive / chatty peer) unrolled through the real task for small periods."),
+    "C18": ("2 (C18)", "Small FIXContainer / FIXMessage objects built from symbolic tags (int / decimal-string / enum spelling) and symbolic values, "
+                  "then one operation with symbolic arguments (get / contains / replace / setitem / delete / group insertion and lookup / "
+                  "equality with containers and dicts), compared with a reference ordered map."),
     "C08": ("2 (C08)", "Operation sequences on the real Journaler (FakeSQLite) with the crash slot as a solver variable over every point "
                   "before/after every SQL statement and commit, plus normal close; after the crash a fresh Journaler must show a state "
                   "at an operation boundary. Counterexamples and sampled witnesses are re-run on the real sqlite3 with os._exit in a child."),
